@@ -36,6 +36,7 @@ type Case struct {
 	Width     int    `json:"width"`
 	Yield     int    `json:"yield"`
 	Procs     int    `json:"gomaxprocs"`
+	Expire    bool   `json:"deadline_expiry,omitempty"` // "cancel" means: the context's deadline passes (context.DeadlineExceeded)
 }
 
 // finite-only constructs take slices / maps as input
@@ -231,6 +232,12 @@ func runCase(c *Case) (string, string) {
 	}
 	ctx, cancel := context.WithCancel(context.Background())
 	defer cancel()
+	if c.Expire {
+		// the consumer's context ends because its deadline passes rather
+		// than through cancel()
+		ectx := vkit.NewExpiringContext(ctx)
+		ctx, cancel = ectx, ectx.Expire
+	}
 	p := build(c, ctx)
 
 	// ---- a worker rather than an iterator
@@ -417,6 +424,7 @@ func genCase(t *rapid.T) *Case {
 		stops = []string{"exhaust", "cancel"}
 	}
 	c.Stop = rapid.SampledFrom(stops).Draw(t, "stop")
+	c.Expire = strings.Contains(c.Stop, "cancel") && rapid.IntRange(0, 2).Draw(t, "expire") == 0
 	if c.Stop == "exhaust" {
 		c.Source = "slice"
 		switch c.Construct {
